@@ -715,7 +715,7 @@ impl ParserListener for Screen {
                     self.dirty.insert(self.cursor.y - 1);
                 }
             } else {
-                break; // Unprintable character or doesn't advance the cursor.
+                continue; // Unprintable character or doesn't advance the cursor.
             }
 
             // .. note:: We can't use `cursor_forward()`, because that
